@@ -671,7 +671,12 @@ class Ownership:
                 for tg in n.targets:
                     if isinstance(tg, ast.Attribute) and isinstance(tg.value, ast.Name) and tg.value.id == var:
                         v = n.value
-                        aliases_self = isinstance(v, ast.Attribute) and isinstance(v.value, ast.Name) and v.value.id == 'self'
+                        # `clone.x = self.x`, `self.x[:]`, `self.x[a:b]`, `self.x.T` ... : the template's object or a view of it
+                        base = v
+                        while isinstance(base, (ast.Attribute, ast.Subscript)):
+                            base = base.value
+                        aliases_self = isinstance(v, (ast.Attribute, ast.Subscript)) and isinstance(base, ast.Name) \
+                            and base.id == 'self'
                         if not aliases_self:
                             fresh.add(tg.attr)
             if isinstance(n, ast.Call) and isinstance(n.func, ast.Attribute) and isinstance(n.func.value, ast.Name) \
